@@ -111,7 +111,7 @@ func TestReplay(t *testing.T) {
 	if err := json.Unmarshal(cf.Case, &c); err != nil {
 		t.Fatal(err)
 	}
-	for i := 0; i < 20; i++ {
+	for i := 0; i < rep.EnvInt("VERIF_REPLAY_REPS", 300); i++ {
 		check(t, c)
 	}
 }
